@@ -192,11 +192,11 @@ claim("C17", "symx+z3",
 
 claim("C12", "symx",
       "symbolic execution of compute_form_factor_amplitude with a free wave vector (phase algebra over tan-half-angle parameters, complex pairs); identities with independent closed forms decided by z3",
-      "Polygon (lattice polygons, both vertex orientations, batches [q], [q,2q], [q,0,-q] incl. a single (1,3) vector) and Polyhedron / ConvexPolyhedron "
-      "(axis-aligned voxel solids incl. an off-origin box and the non-convex L prism) form factors with q = (qx,qy,qz) free: every exp(-i.) / sinc the real "
+      "Polygon (lattice polygons, both vertex orientations, batches [q], [q,2q], [q,0,-q] incl. a single (1,3) vector), Polyhedron / ConvexPolyhedron "
+      "(axis-aligned voxel solids incl. an off-origin box and the non-convex L prism) and Sphere (free radius, lattice centres) form factors with q = (qx,qy,qz) free: every exp(-i.) / sinc the real "
       "code evaluates becomes an exact rational function of t_k = tan(phase_k/2); compared with the vertex-form 2-D Fourier transform and with the closed "
       "form for unions of boxes; F(0) = density*area / volume, F(-q) = conj F(q). Base phases are refined on demand when the code needs finer ones.",
-      "reals not floats (A1); values of sin/cos outside (phases are formal); each q component exactly 0 or >= 1e-2 (the isclose band and continuity limits are outside); batch <= 3; Sphere not yet covered",
+      "reals not floats (A1); values of sin/cos outside (phases are formal); each q component exactly 0 or >= 1e-2 (the isclose band and continuity limits are outside); batch <= 3",
       "DESIGN.md §6 C12")
 
 ALL = ["C%02d" % i for i in range(1, 21)]
